@@ -48,6 +48,8 @@ type inlineSite struct {
 }
 
 type normaliser struct {
+	pending    []*inlineSite // persistent sites a call-site expansion adds besides its own (a blank use of a local closure)
+	blanked    map[types.Object]bool
 	lastSubsts []*inlineSite
 	extra      map[string][]*inlineSite // substitutions active while one helper body is being rendered
 	pk         *packages.Package
@@ -80,7 +82,13 @@ func (n *normaliser) render(file string, s, e int) (string, bool) {
 		if inner[i].s != inner[j].s {
 			return inner[i].s < inner[j].s
 		}
-		return inner[i].e < inner[j].e // an insertion (empty range) comes before a replacement starting there
+		// an insertion (empty range) comes before a replacement starting there; of two replacements starting
+		// at the same place the outer one is rendered (it renders what is nested inside it itself)
+		ei, ej := inner[i].e == inner[i].s, inner[j].e == inner[j].s
+		if ei != ej {
+			return ei
+		}
+		return inner[i].e > inner[j].e
 	})
 	var b bytes.Buffer
 	pos := s
@@ -580,6 +588,224 @@ func (n *normaliser) siteRaw(h *nHelper, call *ast.CallExpr, cf string, parent m
 		})
 		return true
 	}
+	// A function-typed parameter that the body only calls (and compares with nil), bound to a function literal —
+	// written at the call, or held by a local variable of the caller that is set once — or to nil: every call of
+	// the parameter is expanded to the literal's body (the shape the code had before the siblings were merged
+	// into one helper with a callback), and what follows from "is nil" / "is not nil" is folded.
+	facts := map[types.Object]bool{} // parameter → known to be nil
+	paramArg := map[string]ast.Expr{}
+	{
+		k := 0
+		for _, p := range h.decl.Type.Params.List {
+			if len(p.Names) == 0 {
+				k++
+				continue
+			}
+			for _, nm := range p.Names {
+				if k < len(call.Args) {
+					paramArg[nm.Name] = call.Args[k]
+				}
+				k++
+			}
+		}
+	}
+	reduceFuncParam := func(param *ast.Ident, typ string, arg ast.Expr) bool {
+		obj := pk.TypesInfo.Defs[param]
+		if obj == nil || assigned[param.Name] {
+			return false
+		}
+		if _, isSig := obj.Type().Underlying().(*types.Signature); !isSig {
+			return false
+		}
+		var lit *ast.FuncLit
+		var litVar *ast.Ident
+		isNil := false
+		switch a := arg.(type) {
+		case *ast.FuncLit:
+			lit = a
+		case *ast.Ident:
+			if tv, ok := pk.TypesInfo.Types[arg]; ok && tv.IsNil() {
+				isNil = true
+				break
+			}
+			v, isVar := pk.TypesInfo.Uses[a].(*types.Var)
+			if !isVar || v.Parent() == nil || v.Parent() == pk.Types.Scope() || v.IsField() {
+				return false
+			}
+			// the caller's local, given a literal where it is declared and never touched again
+			nDef := 0
+			bad := false
+			ast.Inspect(caller, func(nd ast.Node) bool {
+				switch x := nd.(type) {
+				case *ast.AssignStmt:
+					for i, l := range x.Lhs {
+						id, isID := l.(*ast.Ident)
+						if !isID {
+							continue
+						}
+						if pk.TypesInfo.Defs[id] == types.Object(v) && x.Tok == token.DEFINE && len(x.Lhs) == len(x.Rhs) {
+							if fl, isFL := x.Rhs[i].(*ast.FuncLit); isFL {
+								lit, nDef = fl, nDef+1
+							} else {
+								bad = true
+							}
+						} else if pk.TypesInfo.Uses[id] == types.Object(v) {
+							bad = true
+						}
+					}
+				case *ast.ValueSpec:
+					for i, id := range x.Names {
+						if pk.TypesInfo.Defs[id] == types.Object(v) {
+							if i < len(x.Values) {
+								if fl, isFL := x.Values[i].(*ast.FuncLit); isFL {
+									lit, nDef = fl, nDef+1
+									continue
+								}
+							}
+							bad = true
+						}
+					}
+				case *ast.UnaryExpr:
+					if id, isID := x.X.(*ast.Ident); isID && x.Op == token.AND && pk.TypesInfo.Uses[id] == types.Object(v) {
+						bad = true
+					}
+				}
+				return true
+			})
+			if bad || nDef != 1 || lit == nil {
+				return false
+			}
+			litVar = a
+		default:
+			return false
+		}
+		// uses of the parameter: calls and nil comparisons only
+		var callUses []*ast.CallExpr
+		okUses := true
+		ast.Inspect(h.decl.Body, func(nd ast.Node) bool {
+			id, isID := nd.(*ast.Ident)
+			if !isID || pk.TypesInfo.Uses[id] != obj {
+				return true
+			}
+			switch par := parent[id].(type) {
+			case *ast.CallExpr:
+				if par.Fun == ast.Expr(id) {
+					callUses = append(callUses, par)
+					return true
+				}
+			case *ast.BinaryExpr:
+				other := par.X
+				if other == ast.Expr(id) {
+					other = par.Y
+				}
+				if oid, isO := other.(*ast.Ident); isO && oid.Name == "nil" && (par.Op == token.EQL || par.Op == token.NEQ) {
+					return true
+				}
+			}
+			okUses = false
+			return true
+		})
+		if !okUses {
+			return false
+		}
+		if isNil {
+			facts[obj] = true
+			for _, cu := range callUses {
+				id := cu.Fun.(*ast.Ident)
+				substs = append(substs, &inlineSite{file: file, s: n.off(id.Pos()), e: n.off(id.End()), text: func() (string, bool) { return "(" + typ + ")(nil)", true }})
+			}
+			return true
+		}
+		// the literal's free variables must mean the same thing where the helper's body is going to sit
+		clash := false
+		ast.Inspect(lit.Body, func(nd ast.Node) bool {
+			id, isID := nd.(*ast.Ident)
+			if !isID {
+				return true
+			}
+			o := pk.TypesInfo.Uses[id]
+			if o == nil || o.Parent() == nil || o.Parent() == pk.Types.Scope() || o.Parent() == types.Universe {
+				return true
+			}
+			if o.Pos() >= lit.Pos() && o.Pos() < lit.End() {
+				return true // the literal's own
+			}
+			if declared[id.Name] {
+				clash = true
+			}
+			if paramNames[id.Name] {
+				if aid, isA := paramArg[id.Name].(*ast.Ident); !isA || aid.Name != id.Name {
+					clash = true
+				}
+			}
+			if h.decl.Recv != nil && len(h.decl.Recv.List[0].Names) == 1 && h.decl.Recv.List[0].Names[0].Name == id.Name {
+				if sel, isSel := call.Fun.(*ast.SelectorExpr); !isSel || !sameName(id.Name, sel.X) {
+					clash = true
+				}
+			}
+			return true
+		})
+		if clash {
+			return false
+		}
+		hl := &nHelper{decl: &ast.FuncDecl{Name: ast.NewIdent(param.Name), Type: lit.Type, Body: lit.Body}, file: cf, rets: returnsOutsideClosures(lit.Body)}
+		if !helperInlinable(hl.decl) {
+			return false
+		}
+		var nested []*inlineSite
+		savedSubsts := substs
+		for _, cu := range callUses {
+			sts := n.site(hl, cu, file, parent)
+			if sts == nil {
+				// a literal that is one returned expression, called with plain identifiers or constants, can stand
+				// where it is called — also where a statement cannot be put (under || and &&)
+				if st := n.exprBeta(pk, lit, cu, cf, file); st != nil {
+					nested = append(nested, st)
+					continue
+				}
+				substs = savedSubsts
+				return false
+			}
+			nested = append(nested, sts...)
+		}
+		substs = append(savedSubsts, nested...)
+		facts[obj] = false
+		if litVar != nil {
+			v := pk.TypesInfo.Uses[litVar]
+			if n.blanked == nil {
+				n.blanked = map[types.Object]bool{}
+			}
+			if !n.blanked[v] {
+				n.blanked[v] = true
+				// the variable may end up without a use: keep the program compiling
+				var def ast.Node
+				ast.Inspect(caller, func(nd ast.Node) bool {
+					switch x := nd.(type) {
+					case *ast.AssignStmt:
+						for _, l := range x.Lhs {
+							if id, isID := l.(*ast.Ident); isID && pk.TypesInfo.Defs[id] == v {
+								def = x
+							}
+						}
+					case *ast.DeclStmt:
+						ast.Inspect(x, func(y ast.Node) bool {
+							if id, isID := y.(*ast.Ident); isID && pk.TypesInfo.Defs[id] == v {
+								def = x
+							}
+							return true
+						})
+					}
+					return true
+				})
+				if def != nil {
+					nm := litVar.Name
+					end := n.off(def.End())
+					n.pending = append(n.pending, &inlineSite{file: cf, s: end, e: end, text: func() (string, bool) { return "\n_ = " + nm, true }})
+				}
+			}
+		}
+		return true
+	}
 	if h.decl.Recv != nil {
 		sel, ok := call.Fun.(*ast.SelectorExpr)
 		if !ok {
@@ -633,6 +859,10 @@ func (n *normaliser) siteRaw(h *nHelper, call *ast.CallExpr, cf string, parent m
 			if ai >= len(call.Args) {
 				return nil
 			}
+			if nm.Name != "_" && !sameName(nm.Name, call.Args[ai]) && reduceFuncParam(nm, n.srcOf(file, p.Type.Pos(), p.Type.End()), call.Args[ai]) {
+				ai++
+				continue
+			}
 			if nm.Name != "_" && !sameName(nm.Name, call.Args[ai]) && !substitutable(nm, n.srcOf(file, p.Type.Pos(), p.Type.End()), call.Args[ai]) {
 				bNames = append(bNames, nm.Name)
 				bArgs = append(bArgs, n.srcOf(cf, call.Args[ai].Pos(), call.Args[ai].End()))
@@ -643,6 +873,9 @@ func (n *normaliser) siteRaw(h *nHelper, call *ast.CallExpr, cf string, parent m
 	}
 	if spread == "" && ai != len(call.Args) {
 		return nil
+	}
+	if len(facts) > 0 {
+		substs = append(substs, n.foldSites(pk, file, h.decl.Body, facts)...)
 	}
 	var resTypes []string
 	if h.decl.Type.Results != nil {
@@ -812,14 +1045,55 @@ func (n *normaliser) siteRaw(h *nHelper, call *ast.CallExpr, cf string, parent m
 						if cid, isID := condID.(*ast.Ident); isID {
 							for k, l := range lhs {
 								isLit := vals[k] == "true" || vals[k] == "false"
+								knownNonNil := false
 								if nilCmp {
 									isLit = vals[k] == "nil"
+									// "if x != nil { …; return x }" in the helper: this return's value is not nil
+									if rid, isRID := ret.Results[k].(*ast.Ident); isRID && !isLit {
+										if blk, isBlk := parent[ret].(*ast.BlockStmt); isBlk {
+											if gi, isIf := parent[blk].(*ast.IfStmt); isIf && gi.Body == blk {
+												if gc, isBE := gi.Cond.(*ast.BinaryExpr); isBE && gc.Op == token.NEQ {
+													gx, isGX := gc.X.(*ast.Ident)
+													gy, isGY := gc.Y.(*ast.Ident)
+													if isGX && isGY && gx.Name == rid.Name && gy.Name == "nil" {
+														knownNonNil = true
+														for _, st := range blk.List {
+															if st == ast.Stmt(ret) {
+																break
+															}
+															ast.Inspect(st, func(nd ast.Node) bool {
+																switch y := nd.(type) {
+																case *ast.AssignStmt:
+																	for _, lh := range y.Lhs {
+																		if lid, isL := lh.(*ast.Ident); isL && lid.Name == rid.Name {
+																			knownNonNil = false
+																		}
+																	}
+																case *ast.UnaryExpr:
+																	if lid, isL := y.X.(*ast.Ident); isL && y.Op == token.AND && lid.Name == rid.Name {
+																		knownNonNil = false
+																	}
+																}
+																return true
+															})
+														}
+													}
+												}
+											}
+										}
+									}
+									if knownNonNil {
+										isLit = true
+									}
 								}
 								if l == cid.Name && isLit {
 									// bool: taken ⇔ literal xor negation; nil comparison: "x == nil" taken, "x != nil" not
 									taken := (vals[k] == "true") != neg
 									if nilCmp {
 										taken = !neg
+										if knownNonNil {
+											taken = neg
+										}
 									}
 									switch {
 									case taken:
@@ -1019,8 +1293,14 @@ func importsNeeded(pk *packages.Package, h *ast.FuncDecl, f *ast.File) (missing 
 // while (and only while) its replacement text is rendered.
 func (n *normaliser) site(h *nHelper, call *ast.CallExpr, cf string, parent map[ast.Node]ast.Node) []*inlineSite {
 	n.lastSubsts = nil
+	outerPending := n.pending
+	n.pending = nil
 	sites := n.siteRaw(h, call, cf, parent)
 	substs := n.lastSubsts
+	if sites != nil {
+		sites = append(sites, n.pending...)
+	}
+	n.pending = outerPending
 	if len(substs) == 0 {
 		return sites
 	}
@@ -1124,4 +1404,224 @@ func isMembershipDecl(fd *ast.FuncDecl) bool {
 		return ok && id.Name == v
 	}
 	return isRet(iff.Body.List[0], "true") && isRet(fd.Body.List[1], "false")
+}
+
+// foldExpr renders e with what is known about function-typed parameters (nil / not nil) folded in:
+// "p == nil", "!", "||" and "&&" with a decided operand. val is non-nil when the whole expression is decided.
+func (n *normaliser) foldExpr(pk *packages.Package, file string, e ast.Expr, facts map[types.Object]bool) (text string, val *bool, changed bool, ok bool) {
+	bv := func(b bool) *bool { return &b }
+	lit := func(b bool) string {
+		if b {
+			return "true"
+		}
+		return "false"
+	}
+	switch x := e.(type) {
+	case *ast.ParenExpr:
+		t, v, ch, ok := n.foldExpr(pk, file, x.X, facts)
+		if !ok {
+			return "", nil, false, false
+		}
+		if v != nil {
+			return lit(*v), v, true, true
+		}
+		if ch {
+			return "(" + t + ")", nil, true, true
+		}
+	case *ast.UnaryExpr:
+		if x.Op == token.NOT {
+			t, v, ch, ok := n.foldExpr(pk, file, x.X, facts)
+			if !ok {
+				return "", nil, false, false
+			}
+			if v != nil {
+				return lit(!*v), bv(!*v), true, true
+			}
+			if ch {
+				return "!(" + t + ")", nil, true, true
+			}
+		}
+	case *ast.BinaryExpr:
+		switch x.Op {
+		case token.EQL, token.NEQ:
+			a, b := x.X, x.Y
+			if id, isID := a.(*ast.Ident); isID && id.Name == "nil" {
+				a, b = b, a
+			}
+			if id, isID := a.(*ast.Ident); isID {
+				if nid, isN := b.(*ast.Ident); isN && nid.Name == "nil" {
+					if isNil, known := facts[pk.TypesInfo.Uses[id]]; known {
+						v := isNil == (x.Op == token.EQL)
+						return lit(v), bv(v), true, true
+					}
+				}
+			}
+		case token.LOR, token.LAND:
+			lt, lv, lch, ok1 := n.foldExpr(pk, file, x.X, facts)
+			rt, rv, rch, ok2 := n.foldExpr(pk, file, x.Y, facts)
+			if !ok1 || !ok2 {
+				return "", nil, false, false
+			}
+			absorbing := x.Op == token.LOR // true absorbs ||, false absorbs &&
+			if lv != nil {
+				if *lv == absorbing {
+					return lit(absorbing), bv(absorbing), true, true
+				}
+				if rv != nil {
+					return lit(*rv), rv, true, true
+				}
+				return rt, nil, true, true
+			}
+			if rv != nil && *rv != absorbing {
+				return lt, nil, true, true // "l || false", "l && true"
+			}
+			if lch || rch {
+				return "(" + lt + ") " + x.Op.String() + " (" + rt + ")", nil, true, true
+			}
+		}
+	}
+	t, ok := n.render(file, n.off(e.Pos()), n.off(e.End()))
+	return t, nil, false, ok
+}
+
+// foldSites: replacements for the maximal expressions of body that fold, and for if statements whose
+// condition is decided (only the branch taken is kept).
+func (n *normaliser) foldSites(pk *packages.Package, file string, body *ast.BlockStmt, facts map[types.Object]bool) []*inlineSite {
+	var out []*inlineSite
+	var walk func(nd ast.Node)
+	visitExpr := func(e ast.Expr) bool {
+		_, v, ch, ok := n.foldExpr(pk, file, e, facts)
+		if !ok || (!ch && v == nil) {
+			return false
+		}
+		ee := e
+		out = append(out, &inlineSite{file: file, s: n.off(e.Pos()), e: n.off(e.End()), text: func() (string, bool) {
+			t, _, _, ok := n.foldExpr(pk, file, ee, facts)
+			return t, ok
+		}})
+		return true
+	}
+	walk = func(root ast.Node) {
+		ast.Inspect(root, func(nd ast.Node) bool {
+			switch x := nd.(type) {
+			case *ast.IfStmt:
+				if x.Init == nil {
+					if _, v, _, ok := n.foldExpr(pk, file, x.Cond, facts); ok && v != nil {
+						xs := x
+						taken := *v
+						out = append(out, &inlineSite{file: file, s: n.off(x.Pos()), e: n.off(x.End()), text: func() (string, bool) {
+							switch {
+							case taken:
+								return n.render(file, n.off(xs.Body.Pos()), n.off(xs.Body.End()))
+							case xs.Else != nil:
+								return n.render(file, n.off(xs.Else.Pos()), n.off(xs.Else.End()))
+							}
+							return "", true
+						}})
+						// what is nested in the branch kept is folded when that branch is rendered
+						if taken {
+							walk(x.Body)
+						} else if x.Else != nil {
+							walk(x.Else)
+						}
+						return false
+					}
+				}
+			case ast.Expr:
+				if _, isB := x.(*ast.BinaryExpr); isB {
+					if visitExpr(x) {
+						return false
+					}
+				}
+				if u, isU := x.(*ast.UnaryExpr); isU && u.Op == token.NOT {
+					if visitExpr(x) {
+						return false
+					}
+				}
+			}
+			return true
+		})
+	}
+	walk(body)
+	return out
+}
+
+// exprBeta: lit is "func(ps) T { return e }" and call is "f(args)" with every argument an identifier or a
+// constant: the call is replaced by (e) with the parameters replaced by the arguments. cf is the literal's
+// file, file the call's.
+func (n *normaliser) exprBeta(pk *packages.Package, lit *ast.FuncLit, call *ast.CallExpr, cf, file string) *inlineSite {
+	if len(lit.Body.List) != 1 {
+		return nil
+	}
+	ret, ok := lit.Body.List[0].(*ast.ReturnStmt)
+	if !ok || len(ret.Results) != 1 {
+		return nil
+	}
+	hasLit := false
+	ast.Inspect(ret.Results[0], func(nd ast.Node) bool {
+		if _, isFL := nd.(*ast.FuncLit); isFL {
+			hasLit = true
+		}
+		return true
+	})
+	if hasLit {
+		return nil
+	}
+	var params []*ast.Ident
+	for _, f := range lit.Type.Params.List {
+		if len(f.Names) == 0 {
+			return nil
+		}
+		if _, isEll := f.Type.(*ast.Ellipsis); isEll {
+			return nil
+		}
+		params = append(params, f.Names...)
+	}
+	if len(params) != len(call.Args) {
+		return nil
+	}
+	var argText []string
+	for _, a := range call.Args {
+		switch x := a.(type) {
+		case *ast.Ident:
+			argText = append(argText, x.Name)
+		default:
+			tv, okT := pk.TypesInfo.Types[a]
+			if !okT || tv.Value == nil {
+				return nil
+			}
+			argText = append(argText, "("+n.srcOf(file, a.Pos(), a.End())+")")
+		}
+	}
+	var subs []*inlineSite
+	for i, prm := range params {
+		obj := pk.TypesInfo.Defs[prm]
+		if obj == nil {
+			continue
+		}
+		assignedTo := false
+		ast.Inspect(ret.Results[0], func(nd ast.Node) bool {
+			if u, isU := nd.(*ast.UnaryExpr); isU && u.Op == token.AND {
+				if id, isID := u.X.(*ast.Ident); isID && pk.TypesInfo.Uses[id] == obj {
+					assignedTo = true
+				}
+			}
+			if id, isID := nd.(*ast.Ident); isID && pk.TypesInfo.Uses[id] == obj {
+				t := argText[i]
+				subs = append(subs, &inlineSite{file: cf, s: n.off(id.Pos()), e: n.off(id.End()), text: func() (string, bool) { return t, true }})
+			}
+			return true
+		})
+		if assignedTo {
+			return nil
+		}
+	}
+	e := ret.Results[0]
+	return &inlineSite{file: file, s: n.off(call.Pos()), e: n.off(call.End()), text: func() (string, bool) {
+		saved := n.extra[cf]
+		n.extra[cf] = append(append([]*inlineSite{}, saved...), subs...)
+		defer func() { n.extra[cf] = saved }()
+		t, ok := n.render(cf, n.off(e.Pos()), n.off(e.End()))
+		return "(" + t + ")", ok
+	}}
 }
